@@ -108,3 +108,106 @@ def c11_junction_reversal_invariant():
         pc = [x == y for x, y in zip(t1, t2)]
         out.append((f"equal-tuples-same-ends[{''.join('S' if s == S else 'I' for s in shape)}]", pc, same_unordered_pair(encode_junction(t1), encode_junction(t2))))
     return out
+
+
+def _pre_state_rows(name):
+    """a symbolic row list of the pre-state (array + length), as a ListView"""
+    from pyvc.spec import ListView, list_maps, set_list
+    from pyvc.values import ROW
+
+    st = State()
+    ref = z3.Int(name)
+    list_maps(st, ROW)
+    return st, ListView(st, ref, ROW)
+
+
+def c12_index_is_span():
+    """C12 reads row spans through the stored index.  Under the class invariant of IndexedAssembly
+    (established by add_scaffold: idx[k] == cum(k+1)) the interval [row_start(idx,k), idx[k]] is exactly the
+    scaffold-coordinate span [1 + cum(k), cum(k+1)] of row k - so 'hit' through the index is the
+    intersection test of the statement."""
+    from pyvc.spec import ListView, list_maps
+    from pyvc.values import INT
+    from .indexed_assembly import hit, idx_wf, row_start, span_hi, span_lo
+
+    st, rows = _pre_state_rows("rows")
+    idx = ListView(st, z3.Int("idx"), INT)
+    k, a, b = z3.Int("k"), z3.Int("a"), z3.Int("b")
+    pc = [idx_wf(rows, idx), 0 <= k, k < rows.len, rows.len >= 0]
+    return [
+        ("end-of-row", pc, idx[k] == span_hi(rows, k)),
+        ("start-of-row", pc, row_start(idx, k) == span_lo(rows, k)),
+        ("hit", pc, z3.And(idx[k] >= a, row_start(idx, k) <= b) == hit(rows, k, a, b)),
+        # rows of at least one base: spans are non-empty and consecutive (the rows tile the scaffold)
+        ("tiling", pc + [k + 1 < rows.len], span_lo(rows, k + 1) == span_hi(rows, k) + 1),
+    ]
+
+
+def c18_span_equals_rows():
+    """C18: 'the reported start..end span always equals the scaffold coordinates covered by the remaining rows
+    (end - start + 1 = total row length)'.  From the representation invariant wf (which every operation is
+    proved to re-establish): total length of the current rows == end - start + 1.  The sum over the current rows
+    is related to the sum over the source window by induction on the number of rows (base and step are
+    discharged here; the induction principle itself is the meta-step)."""
+    from pyvc.spec import ObjView
+    from pyvc.values import TRef
+    from .overlap_result import wf
+
+    st = State()
+    st.ralloc = z3.Int("ralloc@0")
+    s = ObjView(st, z3.Int("res"), "OverlapResult")
+    rows, src = s.rows, s.g_src
+    lo, hi, ts, te, n = s.g_lo, s.g_hi, s.g_ts, s.g_te, rows.len
+    j = z3.Int("j")
+
+    def claim(j):
+        # total length of the first j rows, in terms of the source window
+        return rows.cum(j) == src.cum(lo + j) - src.cum(lo) - z3.If(j >= 1, ts, 0) - z3.If(j == n, te, 0)
+
+    pc = [wf(s), n >= 1]
+    # the two instances of the definition of `cum` the step needs, proved first and then used (cut)
+    u_rows = rows.cum(j + 1) == rows.cum(j) + rows[j].length
+    u_src = src.cum(lo + j + 1) == src.cum(lo + j) + src[lo + j].length
+    rng = [0 <= j, j < n]
+    out = [
+        ("induction-base", pc, claim(z3.IntVal(0))),
+        ("unroll-rows", pc + rng, u_rows),
+        ("unroll-source", pc + rng, u_src),
+        ("induction-step", pc + rng + [u_rows, u_src, claim(j)], claim(j + 1)),
+        # conclusion at j == n
+        ("span-equals-total-row-length", pc + [claim(n)], s.end - s.start + 1 == rows.cum(n)),
+        ("empty", [wf(s), n == 0], s.end - s.start + 1 == 0),
+        ("no-terminal-gap", pc, z3.And(rows[0].is_frag, rows[n - 1].is_frag)),
+    ]
+    # base case needs n >= 1 so that `j == n` is false at j = 0
+    return out
+
+
+def c06_rows_tile_object():
+    """C06 over the contract of format_agp: the line written for row i of an object has the columns
+    agp_cols(name, cum(i), i, row_i) = the rendering of agp_fields(...).  Over those fields: the object spans
+    tile the object from 1 with no hole or overlap, part numbers count from 1, a sequence row's object span
+    equals its component span, a gap row's span equals its stated length (and the line carries 'U', 'yes' and
+    the gap type by the shape of agp_cols), the last object end is the scaffold's length."""
+    from .format import agp_fields
+
+    st, rows = _pre_state_rows("rows")
+    i = z3.Int("i")
+    name = z3.String("name")
+    n = rows.len
+    pc = [0 <= i, i < n]
+
+    def f(k):
+        return agp_fields(name, rows.cum(k), k, rows[k])
+
+    r = rows[i]
+    a, b = f(i), f(i + 1)
+    return [
+        ("first-row-starts-at-1", [n > 0], f(z3.IntVal(0))["object_beg"] == 1),
+        ("part-numbers-count-from-1", pc, z3.And(f(z3.IntVal(0))["part_number"] == 1, b["part_number"] == a["part_number"] + 1)),
+        ("rows-abut-no-hole-no-overlap", pc + [i + 1 < n], b["object_beg"] == a["object_end"] + 1),
+        ("object-span-is-row-length", pc, a["object_end"] - a["object_beg"] + 1 == r.length),
+        ("sequence-row-object-span-equals-component-span", pc + [r.is_frag], a["object_end"] - a["object_beg"] == a["component_end"] - a["component_beg"]),
+        ("gap-row-span-equals-stated-length", pc + [r.is_gap], a["object_end"] - a["object_beg"] + 1 == a["gap_length"]),
+        ("last-end-is-scaffold-length", [n > 0, i == n - 1], a["object_end"] == rows.cum(n)),
+    ]
